@@ -1,5 +1,7 @@
 import EmmyVerif.Model.Events
 import EmmyVerif.Model.Cache
+import EmmyVerif.Model.EventsCore
+import EmmyVerif.Model.Reader
 import EmmyVerif.Drv.Util
 /-! Driver ops of the `tree` family (green builder, tree builder, node cache, reader, lexer loop).
 
@@ -126,6 +128,43 @@ def cacheIds (trees : List Elem) : String :=
     (rr.1, acc.2 ++ [Drv.joinWith "." (rr.2.map toString)])) ([], [])
   Drv.joinWith ";" out.2
 
+/-! Token-layer core: kinds `c` comment, `e` eol, `w` whitespace, `s` shebang, `o` other, `x` eof/none. -/
+def parseTKs (s : String) : Option (List Core.TK) :=
+  if s == "-" then some [] else
+  s.toList.mapM fun c => match c with
+    | 'c' => some Core.TK.comment | 'e' => some Core.TK.eol | 'w' => some Core.TK.ws
+    | 's' => some Core.TK.shebang | 'o' => some Core.TK.other | 'x' => some Core.TK.eof
+    | _ => none
+
+def showCoreEv : Core.Ev → String
+  | .eat i => s!"e{i}"
+  | .doc a b => s!"d{a}-{b}"
+
+/-! Reader: ops `b` bump, `r` reset_buff, `D` eat_while(ascii digit), `S` eat_while(space|tab),
+`N` eat_while(not \n, not \r), `X` eat_till_end, `Q` eat_when('='). After every op the observable state. -/
+def readerObs (r : Reader.R) : String :=
+  s!"{if Reader.isEof r then 1 else 0}:{(Reader.currentChar r).toNat}:{(Reader.nextChar r).toNat}:{(Reader.prevChar r).toNat}:{(Reader.currentRange r).1}:{(Reader.currentRange r).2}:{Reader.endPos r}"
+
+def readerStep (r : Reader.R) (c : Char) : Option (Reader.R × Option Nat) :=
+  let f := r.rest.length + 1
+  match c with
+  | 'b' => some (Reader.bump r, none)
+  | 'r' => some (Reader.resetBuff r, none)
+  | 'D' => let x := Reader.eatWhile (fun ch => '0' ≤ ch && ch ≤ '9') f r; some (x.1, some x.2)
+  | 'S' => let x := Reader.eatWhile (fun ch => ch == ' ' || ch == '\t') f r; some (x.1, some x.2)
+  | 'N' => let x := Reader.eatWhile (fun ch => ch != '\n' && ch != '\r') f r; some (x.1, some x.2)
+  | 'X' => let x := Reader.eatWhile (fun _ => true) f r; some (x.1, some x.2)
+  | 'Q' => let x := Reader.eatWhile (fun ch => ch == '=') f r; some (x.1, some x.2)
+  | _ => none
+
+def readerRun (r : Reader.R) : List Char → Option (List String)
+  | [] => some []
+  | c :: cs => do
+    let (r', n) ← readerStep r c
+    let rest ← readerRun r' cs
+    let cnt := match n with | some k => s!"#{k}" | none => ""
+    pure ((readerObs r' ++ cnt) :: rest)
+
 def handle (op : String) (args : List String) : Option String :=
   match op, args with
   | "build", [evs] => do
@@ -133,6 +172,30 @@ def handle (op : String) (args : List String) : Option String :=
     pure (match build evs with
       | none => "err panic"
       | some r => "ok " ++ showElem r)
+  | "core", [kinds, doc] => do
+    let ks ← parseTKs kinds
+    let evs := Core.parseEvents ks (doc == "1")
+    pure ("ok " ++ (if evs.isEmpty then "-" else Drv.joinWith "," (evs.map showCoreEv)))
+  | "reader", [h, start, ops] => do
+    let t ← Drv.unhex h
+    let st ← start.toNat?
+    let r0 := Reader.new t st
+    let obs ← readerRun r0 (if ops == "-" then [] else ops.toList)
+    pure ("ok " ++ Drv.joinWith "," (readerObs r0 :: obs))
+  | "lexloop", [h, ks] => do
+    let t ← Drv.unhex h
+    let counts ← (if ks == "-" then some [] else (ks.splitOn ".").mapM (·.toNat?))
+    -- the arm schedule: the i-th token bumps counts[i] times (the schedule is positional, so the
+    -- arm function is given the number of tokens already produced through the reader position)
+    let rec go (cs : List Nat) (r : Reader.R) : List (Nat × Nat) :=
+      match cs with
+      | [] => []
+      | k :: rest =>
+        if Reader.isEof r then [] else
+        let r1 := Reader.bumpN k (Reader.resetBuff r)
+        Reader.currentRange r1 :: go rest r1
+    let toks := go counts (Reader.new t 0)
+    pure ("ok " ++ (if toks.isEmpty then "-" else Drv.joinWith "," (toks.map fun (a, b) => s!"{a}:{b}")))
   | "cache", trees => do
     let ts ← trees.mapM parseTree
     pure ("ok " ++ cacheIds ts)
